@@ -4,6 +4,8 @@ package main
 
 import (
 	"fmt"
+	"go/token"
+	"sort"
 	"strings"
 
 	"golang.org/x/tools/go/ssa"
@@ -17,7 +19,7 @@ func init() {
 	})
 	register(&propDef{
 		id:      "C35",
-		explain: "Structural necessary conditions of 'temporary files of a parsed multipart form never outlive the request': (R1) a *multipart.Form produced by ReadForm / readMultipartForm is, on every path from the producing call to a return, stored into Request.multipartForm (where Reset finds it), returned to the caller, explicitly removed with RemoveAll, or the producing call reported an error; (R2) Request.multipartForm is set to nil only after RemoveAll on the non-nil branch; (R3) Request.Reset and RequestCtx.reset clear multipartForm on every path (through the remover), and every serve-loop iteration that ran a handler passes Request.Reset before the next request. Not decided: form content round trip, files moved away by user code.",
+		explain: "Structural necessary conditions of 'temporary files of a parsed multipart form never outlive the request': (R1) a *multipart.Form produced by ReadForm / readMultipartForm is, on every path from the producing call to a return, stored into Request.multipartForm (where Reset finds it), returned to the caller, explicitly removed with RemoveAll, or the producing call reported an error; (R2) Request.multipartForm is set to nil only after RemoveAll on the non-nil branch; (R3) Request.Reset and RequestCtx.reset clear multipartForm on every path (through the remover), and every serve-loop iteration that ran a handler passes Request.Reset before the next request. (R4) a form (or the nil of a failed parse) is stored into Request.multipartForm only where the slot is known to be empty on that path - the field was tested and found nil, or a routine that removes the files and clears the slot ran before; routines that receive the connection reader fill a request emptied by the read entry points (checked: Read/ReadLimitBody clear on every path) or by the serve loop (R3); a ctx goes back to the pool only after RequestCtx.reset; (R5) the serve function leaves, on every return, with its ctx released or handed to the hijack goroutine (decided with the premise, itself checked, that errHijacked is handed out only after that goroutine was started), and the hijack goroutine resets the request it took over on every path, by releaseCtx or Request.Reset. Not decided: form content round trip, files moved away by user code.",
 		run:     runC35,
 	})
 }
@@ -235,6 +237,8 @@ func isCallResultNamed(v ssa.Value, name string) bool {
 }
 
 func runC35(p *Prog, r *Report) {
+	formSlotOverwrittenOnlyWhenEmpty(p, r)
+	ctxReleasedOrHandedOver(p, r)
 	// R1: producers of *multipart.Form
 	isFormProducer := func(c *ssa.Call) bool {
 		f := c.Call.StaticCallee()
@@ -368,4 +372,506 @@ func runC35(p *Prog, r *Report) {
 		r.Check("R3", rp.typ+"."+rp.method+" clears multipartForm on every path", coveredBy(w, fp), p.Pos(fn.Pos()), "a path through the reset method leaves the parsed form (and its temporary files) attached to the recycled object")
 	}
 	p.serveLoop("C35").report(r, "C35")
+}
+
+// formSlotOverwrittenOnlyWhenEmpty (C35.R4): Request.multipartForm is the only
+// reference to the temporary files of a parsed form. A new form (or the nil a
+// failed parse returns) may be stored there only when the slot is known to be
+// empty on that path: the field was tested and found nil, or a routine that
+// removes the form's files and clears the slot ran before. Otherwise a parsed
+// form is dropped without RemoveAll and its files stay behind for good.
+func formSlotOverwrittenOnlyWhenEmpty(p *Prog, r *Report) {
+	clears := map[*ssa.Function]bool{}
+	for _, name := range []string{"(*Request).RemoveMultipartFormFiles", "(*Request).Reset", "(*Request).resetSkipHeader", "(*Request).ResetBody"} {
+		if f := p.Func(name); f != nil {
+			clears[f] = true
+		}
+	}
+	// a ctx taken from the pool (or new) has an empty slot, provided every Put into the ctx pool follows a reset
+	if acq := p.Func("(*Server).acquireCtx"); acq != nil {
+		clears[acq] = true
+		ctxReset := p.Func("(*RequestCtx).reset")
+		nput := 0
+		for _, fn := range p.funcsIn("") {
+			for _, b := range fn.Blocks {
+				for _, in := range b.Instrs {
+					c, ok := in.(ssa.CallInstruction)
+					if !ok || c.Common().StaticCallee() == nil || c.Common().StaticCallee().Name() != "Put" || len(c.Common().Args) == 0 {
+						continue
+					}
+					fa, ok := c.Common().Args[0].(*ssa.FieldAddr)
+					if !ok || fieldName(fa.X.Type(), fa.Field) != "ctxPool" {
+						continue
+					}
+					nput++
+					hit, path := reachAvoiding(fn, nil, func(i ssa.Instruction) bool { return i == in }, func(i ssa.Instruction) bool {
+						cc, ok := i.(ssa.CallInstruction)
+						return ok && ctxReset != nil && cc.Common().StaticCallee() == ctxReset
+					}, nil)
+					r.Check("R4", funcName(fn)+": a RequestCtx goes back to the pool only after RequestCtx.reset", hit == nil, p.Pos(in.Pos()),
+						"the pooled ctx may still hold a parsed form: the next connection that gets it starts with a filled slot", blocksString(p, path)...)
+				}
+			}
+		}
+		r.Floor("R4", "Put calls on the ctx pool", nput, 1)
+	}
+	// routines that run a clearing routine on every path
+	for round := 0; round < 3; round++ {
+		for _, fn := range p.funcsIn("") {
+			if clears[fn] || fn.Blocks == nil || recvTypeName(fn) != "Request" {
+				continue
+			}
+			isClear := func(i ssa.Instruction) bool {
+				c, ok := i.(ssa.CallInstruction)
+				return ok && c.Common().StaticCallee() != nil && clears[c.Common().StaticCallee()]
+			}
+			if hit, _ := reachAvoiding(fn, nil, isReturn, isClear, nil); hit == nil {
+				clears[fn] = true
+			}
+		}
+	}
+	isFormStore := func(in ssa.Instruction) (*ssa.Store, bool) {
+		st, ok := in.(*ssa.Store)
+		if !ok {
+			return nil, false
+		}
+		fa, ok := st.Addr.(*ssa.FieldAddr)
+		if !ok || typeNameOf(fa.X) != "Request" || fieldName(fa.X.Type(), fa.Field) != "multipartForm" {
+			return nil, false
+		}
+		return st, true
+	}
+	// routines that may put a form into the slot (directly or through a callee)
+	mayFill := map[*ssa.Function]bool{}
+	for changed := true; changed; {
+		changed = false
+		for _, fn := range p.funcsIn("") {
+			if mayFill[fn] || clears[fn] {
+				continue
+			}
+			for _, b := range fn.Blocks {
+				for _, in := range b.Instrs {
+					if st, ok := isFormStore(in); ok && !isNilConst(st.Val) {
+						mayFill[fn] = true
+					}
+					if c, ok := in.(ssa.CallInstruction); ok && c.Common().StaticCallee() != nil && mayFill[c.Common().StaticCallee()] {
+						mayFill[fn] = true
+					}
+				}
+			}
+			if mayFill[fn] {
+				changed = true
+			}
+		}
+	}
+	const bEmpty uint64 = 1
+	isFormLoad := func(v ssa.Value) bool {
+		_, fv := loadedField(v)
+		return fv != nil && fv.Name() == "multipartForm"
+	}
+	type res struct {
+		n, bad int
+		wit    []string
+	}
+	// explore fn; points are the instructions at which the slot must be empty (stores of a form, or calls of a
+	// routine that relies on an empty slot)
+	explore := func(fn *ssa.Function, points map[ssa.Instruction]bool, entryEmpty bool) (map[ssa.Instruction]*res, bool) {
+		out := map[ssa.Instruction]*res{}
+		x := NewExplorer(p, fn, Hooks{
+			Instr: func(x *Explorer, st *State, in ssa.Instruction) {
+				if points[in] {
+					rr := out[in]
+					if rr == nil {
+						rr = &res{}
+						out[in] = rr
+					}
+					rr.n++
+					if !st.Has(bEmpty) {
+						rr.bad++
+						if rr.wit == nil {
+							rr.wit = x.Path(st)
+						}
+					}
+				}
+				switch w := in.(type) {
+				case ssa.CallInstruction:
+					if f := w.Common().StaticCallee(); f != nil {
+						switch {
+						case clears[f]:
+							st.Set(bEmpty)
+						case mayFill[f]:
+							st.Clear(bEmpty)
+						}
+					} else if _, isBuiltin := w.Common().Value.(*ssa.Builtin); isBuiltin {
+						// len, append, copy ...
+					} else if _, isGo := in.(*ssa.Go); !isGo && !w.Common().IsInvoke() {
+						// a handler or callback runs: it may parse the form
+						st.Clear(bEmpty)
+					}
+				case *ssa.Store:
+					if st2, ok := isFormStore(w); ok {
+						if isNilConst(st2.Val) {
+							st.Set(bEmpty)
+						} else {
+							st.Clear(bEmpty)
+						}
+					}
+				}
+			},
+			Branch: func(x *Explorer, st *State, cond ssa.Value, taken bool, from *ssa.BasicBlock) {
+				pos, v := stripNot(cond)
+				bo, ok := v.(*ssa.BinOp)
+				if !ok || (bo.Op != token.EQL && bo.Op != token.NEQ) {
+					return
+				}
+				var other ssa.Value
+				switch {
+				case isFormLoad(bo.X):
+					other = bo.Y
+				case isFormLoad(bo.Y):
+					other = bo.X
+				}
+				if other == nil || !isNilConst(other) {
+					return
+				}
+				if (bo.Op == token.EQL) == (taken == pos) {
+					st.Set(bEmpty)
+				} else {
+					st.Clear(bEmpty)
+				}
+			},
+		})
+		x.Filter = noIntFilter
+		init := &State{}
+		if entryEmpty {
+			init.Set(bEmpty)
+		}
+		x.Run(init)
+		return out, x.Aborted
+	}
+	// entryEmpty: is fn only ever entered (from inside the module) with the slot empty?
+	memo := map[*ssa.Function]int{} // 1 yes, 2 no, 3 in progress
+	var why []string
+	var entryEmpty func(fn *ssa.Function, depth int) bool
+	entryEmpty = func(fn *ssa.Function, depth int) bool {
+		switch memo[fn] {
+		case 1:
+			return true
+		case 2, 3:
+			return false
+		}
+		memo[fn] = 3
+		ncall, ok := 0, depth > 0
+		for _, caller := range p.funcsIn("") {
+			if !ok {
+				break
+			}
+			cp := map[ssa.Instruction]bool{}
+			for _, b := range caller.Blocks {
+				for _, in := range b.Instrs {
+					if c, isCall := in.(ssa.CallInstruction); isCall && c.Common().StaticCallee() == fn {
+						cp[in] = true
+					}
+				}
+			}
+			if len(cp) == 0 {
+				continue
+			}
+			ncall += len(cp)
+			good := func(co map[ssa.Instruction]*res, ab bool) bool {
+				if ab {
+					return false
+				}
+				for in := range cp {
+					if rr := co[in]; rr == nil || rr.bad > 0 {
+						return false
+					}
+				}
+				return true
+			}
+			if good(explore(caller, cp, false)) {
+				continue
+			}
+			if entryEmpty(caller, depth-1) && good(explore(caller, cp, true)) {
+				continue
+			}
+			ok = false
+			co, ab := explore(caller, cp, false)
+			detail := ""
+			if ab {
+				detail = " [exploration of the caller exhausted its state budget]"
+			}
+			for in := range cp {
+				if rr := co[in]; rr != nil && rr.bad > 0 {
+					detail += fmt.Sprintf(" [%s: %d of %d arrivals; %s]", p.Pos(in.Pos()), rr.bad, rr.n, strings.Join(rr.wit, " > "))
+				}
+			}
+			why = append(why, funcName(fn)+" is called with a possibly filled slot from "+funcName(caller)+detail)
+		}
+		if ncall == 0 {
+			ok = false // an entry point of the API: nothing is known about the request it is applied to
+		}
+		if ok {
+			memo[fn] = 1
+		} else {
+			memo[fn] = 2
+		}
+		return ok
+	}
+	n := 0
+	for _, fn := range p.funcsIn("") {
+		points := map[ssa.Instruction]bool{}
+		var stores []*ssa.Store
+		for _, b := range fn.Blocks {
+			for _, in := range b.Instrs {
+				if st, ok := isFormStore(in); ok && !isNilConst(st.Val) {
+					stores = append(stores, st)
+					points[st] = true
+				}
+			}
+		}
+		if len(stores) == 0 {
+			continue
+		}
+		// wire-read path: a routine that receives the connection reader fills a request whose slot was emptied by the
+		// read entry point (Read / ReadLimitBody begin with resetSkipHeader - checked below) or by the serve loop's
+		// Reset before the next request (R3); "continue" routines resume such a read
+		takesReader := false
+		for _, prm := range fn.Params {
+			if strings.HasSuffix(prm.Type().String(), "bufio.Reader") {
+				takesReader = true
+			}
+		}
+		if takesReader {
+			for i, s := range stores {
+				n++
+				r.Check("R4", fmt.Sprintf("%s: store #%d into Request.multipartForm happens only when the slot is empty", funcName(fn), i+1), true, p.Pos(s.Pos()),
+					"wire-read path: emptiness is the contract of the read entry points (checked: they begin by clearing) and of the serve loop (R3)")
+			}
+			continue
+		}
+		out, aborted := explore(fn, points, false)
+		anyBad := false
+		for _, s := range stores {
+			if rr := out[s]; rr != nil && rr.bad > 0 {
+				anyBad = true
+			}
+		}
+		via := ""
+		if anyBad {
+			// the routine fills a request its callers have cleared: every call site in the module (and, where needed,
+			// the callers' callers) must be reached with the slot empty; then it is judged again from an empty slot
+			why = nil
+			if entryEmpty(fn, 3) {
+				out, aborted = explore(fn, points, true)
+				via = " (judged from an empty slot: every call site in the module is reached with the slot cleared)"
+			} else {
+				sort.Strings(why)
+				via = " (" + strings.Join(why, "; ") + ")"
+			}
+		}
+		for i, s := range stores {
+			n++
+			rr := out[s]
+			construct := fmt.Sprintf("%s: store #%d into Request.multipartForm happens only when the slot is empty", funcName(fn), i+1)
+			if rr == nil || aborted {
+				r.Undecided("R4", construct, "the store was not reached by the exploration")
+				continue
+			}
+			r.Check("R4", construct, rr.bad == 0, p.Pos(s.Pos()),
+				fmt.Sprintf("%d of %d explored arrivals overwrite a slot that may still hold a parsed form (no nil test of the field and no removing routine on the path)%s: that form's temporary files lose their only reference and are never removed", rr.bad, rr.n, via), rr.wit...)
+		}
+	}
+	// the read entry points begin by clearing
+	nentry := 0
+	for _, fn := range p.funcsIn("") {
+		if recvTypeName(fn) != "Request" || fn.Object() == nil || !fn.Object().Exported() || !strings.HasPrefix(fn.Name(), "Read") {
+			continue
+		}
+		takesReader := false
+		for _, prm := range fn.Params {
+			if strings.HasSuffix(prm.Type().String(), "bufio.Reader") {
+				takesReader = true
+			}
+		}
+		if !takesReader || !mayFill[fn] && !clears[fn] {
+			continue
+		}
+		nentry++
+		r.Check("R4", funcName(fn)+": the read entry point clears the request (and its form slot) on every path before reading into it", clears[fn], p.Pos(fn.Pos()),
+			"a form left in the request by its previous use is overwritten by the pre-parsed form of the next read")
+	}
+	r.Floor("R4", "exported read entry points of Request", nentry, 2)
+	r.Counts["R4 clearing routines (given + derived must-clear)"] = len(clears)
+	r.Counts["R4 routines that may fill the slot"] = len(mayFill)
+	{
+		var names []string
+		for f := range mayFill {
+			names = append(names, funcName(f))
+		}
+		sort.Strings(names)
+		r.Note("R4 may-fill routines: %s", strings.Join(names, ", "))
+	}
+	r.Floor("R4", "stores of a form into Request.multipartForm", n, 3)
+}
+
+// ctxReleasedOrHandedOver (C35.R5): the RequestCtx - and with it the request's
+// parsed form - is reset by releaseCtx. The serve function must, on every
+// return, have released its current ctx or have started the hijack goroutine
+// that releases it. (A requested hijack whose response could not be written
+// never starts that goroutine: the ctx is still the serve function's to
+// release.)
+func ctxReleasedOrHandedOver(p *Prog, r *Report) {
+	fn := p.Func("(*Server).serveConnCounted")
+	rel := p.Func("(*Server).releaseCtx")
+	hj := p.Func("hijackConnHandler")
+	acq := p.Func("(*Server).acquireCtx")
+	if fn == nil || rel == nil || hj == nil || acq == nil {
+		r.Undecided("R5", "serveConnCounted / releaseCtx / hijackConnHandler / acquireCtx", "anchor not found")
+		return
+	}
+	const (
+		bHeld uint64 = 1 << iota
+		bGone
+		bHanded
+		bInfeasible
+	)
+	// premise for reading 'err == errHijacked': the sentinel is given to a variable only after the hijack goroutine
+	// was started, and no other function hands it out (elsewhere it is only compared against)
+	var sentinel *ssa.Global
+	for _, m := range p.Root().Members {
+		if g, ok := m.(*ssa.Global); ok && g.Name() == "errHijacked" {
+			sentinel = g
+		}
+	}
+	premise := sentinel != nil
+	var goBlocks []*ssa.BasicBlock
+	for _, b := range fn.Blocks {
+		for _, in := range b.Instrs {
+			if g, ok := in.(*ssa.Go); ok && g.Common().StaticCallee() == hj {
+				goBlocks = append(goBlocks, b)
+			}
+		}
+	}
+	isCompareUse := func(ref ssa.Instruction) bool {
+		switch w := ref.(type) {
+		case *ssa.BinOp:
+			return w.Op == token.EQL || w.Op == token.NEQ
+		case *ssa.MakeInterface, *ssa.ChangeInterface:
+			return true // argument of errors.Is
+		case ssa.CallInstruction:
+			f := w.Common().StaticCallee()
+			return f != nil && f.Pkg != nil && f.Pkg.Pkg.Path() == "errors"
+		}
+		return false
+	}
+	if premise {
+		for _, f := range p.funcsIn("") {
+			for _, b := range f.Blocks {
+				for _, in := range b.Instrs {
+					u, ok := in.(*ssa.UnOp)
+					if !ok || u.Op != token.MUL || u.X != ssa.Value(sentinel) {
+						continue
+					}
+					for _, ref := range *u.Referrers() {
+						if isCompareUse(ref) {
+							continue
+						}
+						after := false
+						if f == fn {
+							for _, gb := range goBlocks {
+								if gb == b || gb.Dominates(b) {
+									after = true
+								}
+							}
+						}
+						if !after {
+							premise = false
+						}
+					}
+				}
+			}
+		}
+	}
+	r.Check("R5", "errHijacked is handed out only after the hijack goroutine was started (premise for reading 'err != errHijacked' as 'not handed over')", premise, p.Pos(fn.Pos()),
+		"the sentinel is assigned or returned somewhere else: a test against it no longer says that hijackConnHandler owns the ctx")
+	// the goroutine that took the ctx over resets the request on every path: by releasing the ctx or, where the ctx
+	// has to stay alive, by resetting the request itself
+	{
+		reqReset := p.Func("(*Request).Reset")
+		hit, path := reachAvoiding(hj, nil, isReturn, func(i ssa.Instruction) bool {
+			c, ok := i.(ssa.CallInstruction)
+			return ok && (c.Common().StaticCallee() == rel || (reqReset != nil && c.Common().StaticCallee() == reqReset))
+		}, nil)
+		r.Check("R5", "hijackConnHandler: the request it took over is reset (releaseCtx or Request.Reset) on every path", hit == nil, p.Pos(hj.Pos()),
+			"a return is reachable on which the ctx is neither released nor its request reset: the temporary files of an uploaded form are never removed", blocksString(p, path)...)
+	}
+	n, bad := 0, 0
+	var wit []string
+	pos := fn.Pos()
+	x := NewExplorer(p, fn, Hooks{
+		Branch: func(x *Explorer, st *State, cond ssa.Value, taken bool, from *ssa.BasicBlock) {
+			if !premise {
+				return
+			}
+			pol, v := stripNot(cond)
+			bo, ok := v.(*ssa.BinOp)
+			if !ok || (bo.Op != token.EQL && bo.Op != token.NEQ) {
+				return
+			}
+			isS := func(v ssa.Value) bool {
+				u, ok := v.(*ssa.UnOp)
+				return ok && u.Op == token.MUL && u.X == ssa.Value(sentinel)
+			}
+			if !isS(bo.X) && !isS(bo.Y) {
+				return
+			}
+			equal := (bo.Op == token.EQL) == (taken == pol)
+			if equal != st.Has(bHanded) {
+				st.Set(bInfeasible) // by the premise the variable holds the sentinel exactly on the paths through the go statement
+			}
+		},
+		Prune: func(x *Explorer, st *State, b *ssa.BasicBlock) bool { return st.Has(bInfeasible) },
+		Instr: func(x *Explorer, st *State, in ssa.Instruction) {
+			c, ok := in.(ssa.CallInstruction)
+			if !ok {
+				return
+			}
+			switch c.Common().StaticCallee() {
+			case acq:
+				st.Set(bHeld)
+				st.Clear(bGone | bHanded)
+			case rel:
+				st.Set(bGone)
+			case hj:
+				if _, isGo := in.(*ssa.Go); isGo {
+					st.Set(bGone | bHanded)
+				}
+			}
+		},
+		Exit: func(x *Explorer, st *State, ret *ssa.Return, pan *ssa.Panic) {
+			if ret == nil || !st.Has(bHeld) {
+				return
+			}
+			n++
+			if !st.Has(bGone) {
+				bad++
+				if wit == nil {
+					wit = x.Path(st)
+					pos = ret.Pos()
+				}
+			}
+		},
+	})
+	x.Filter = func(key string) bool {
+		return strings.Contains(key, "ijack") || strings.Contains(key, "err")
+	}
+	x.MaxStates = 1500000
+	x.Run(nil)
+	if x.Aborted || n == 0 {
+		r.Undecided("R5", "serveConnCounted: the ctx is released or handed to the hijack goroutine on every return", "exploration gave no verdict")
+		return
+	}
+	r.Check("R5", "serveConnCounted: the ctx is released or handed to the hijack goroutine on every return", bad == 0, p.Pos(pos),
+		fmt.Sprintf("%d of %d explored returns leave the function with the ctx neither released nor handed over: its request is never reset, so the temporary files of an uploaded form stay on disk after the connection is gone", bad, n), wit...)
 }
